@@ -92,6 +92,8 @@ class Env:
             self._set(e, self._new_expr(e))
             self.kind[e] = "expr"
         self.shadow = {}
+        self.frozen = {}
+        self.history = []
         self.pending_ir = PENDING_IR
         EL, ET = g.Edge.Label, g.Edge.Type
         self.label_alias = {"f": "L000", "L1": "L111", "L2": "L501", "L3": "L010"}
@@ -285,6 +287,7 @@ class Env:
     # ---- executing one spec operation ---------------------------------------
     def step(self, op):
         """Returns the observed result (spec vocabulary) or {'exc': class name}."""
+        self.history.append({k: v for k, v in op.items() if k not in ("res", "alts", "branches", "msg")})
         try:
             r = self._do(op)
         except Unprojectable:
@@ -681,6 +684,10 @@ class Env:
                         raise Unprojectable("loaded expression at %s+%d was not saved" % (self.nid(o), k))
                     self._set(eid, e)
         self.shadow[irid] = old_ir
+        # the pre-load IR stays alive with the same UUIDs (two loads of one file in one process): its own
+        # UUID table must keep answering with its own objects whatever happens to the loaded IR
+        self.frozen[irid] = [(self.uuid(n), old_ir.get_by_uuid(self.uuid(n))) for n in sorted(self.kind)
+                             if self.kind[n] != "expr"]
         if want is not None:
             buf = io.BytesIO()
             new_ir.save_protobuf_file(buf)
@@ -766,6 +773,11 @@ class Env:
                 for c in self._by("mod", "sec", "biv", "code", "data", "prx", "sym")}
 
     def _p_cache(self):
+        for i, probes in self.frozen.items():
+            sh = self.shadow.get(i)
+            for u, was in probes:
+                if sh is not None and sh.get_by_uuid(u) is not was:
+                    raise Unprojectable("UUID table of the frozen pre-load IR of %s changed for %s (leak between IRs)" % (i, u))
         foreign = [uuidlib.uuid5(NS, "foreign-%d" % i) for i in range(2)] + [self.hidden_sym.uuid]
         out = {}
         for i in self._by("ir"):
